@@ -19,8 +19,11 @@ MUTANTS = [
     M("unpad-strips-run", F, "    if data[-padding:] != bytes([padding]) * padding:\n        raise ValueError(\"Invalid PKCS#7 padding\")\n    return data[:-padding]", "    stripped = data.rstrip(data[-1:])\n    if len(data) - len(stripped) < padding:\n        raise ValueError(\"Invalid PKCS#7 padding\")\n    return stripped", "C20-WRAP"),
     M("patch-missing-binding", F, "    enc.aes_ecb_decrypt = aes_ecb_decrypt\n", "", "C20-PATCH"),
     M("patch-cross-binding", F, "    providers.aes_cbc_decrypt = aes_cbc_decrypt\n", "    providers.aes_cbc_decrypt = aes_ecb_decrypt\n", "C20-PATCH"),
+    M("shift-rows-gather-rebinds-parameter", F, "def _shift_rows(state: list[int]) -> None:\n    for row in range(1, 4):\n        row_bytes = [state[row + 4 * col] for col in range(4)]\n        row_bytes = row_bytes[row:] + row_bytes[:row]\n        for col in range(4):\n            state[row + 4 * col] = row_bytes[col]\n", "_SR_SOURCE = tuple((i + 4 * (i % 4)) % 16 for i in range(16))\n\n\ndef _shift_rows(state: list[int]) -> None:\n    state = [state[source] for source in _SR_SOURCE]\n", "C20-MIX"),
+    M("shift-rows-gather-inverse-table", F, "def _shift_rows(state: list[int]) -> None:\n    for row in range(1, 4):\n        row_bytes = [state[row + 4 * col] for col in range(4)]\n        row_bytes = row_bytes[row:] + row_bytes[:row]\n        for col in range(4):\n            state[row + 4 * col] = row_bytes[col]\n", "_SR_SOURCE = tuple((i - 4 * (i % 4)) % 16 for i in range(16))\n\n\ndef _shift_rows(state: list[int]) -> None:\n    state[:] = [state[source] for source in _SR_SOURCE]\n", "C20-MIX"),
 ]
 TWINS = [
+    T("shift-rows-as-one-gather", F, "def _shift_rows(state: list[int]) -> None:\n    for row in range(1, 4):\n        row_bytes = [state[row + 4 * col] for col in range(4)]\n        row_bytes = row_bytes[row:] + row_bytes[:row]\n        for col in range(4):\n            state[row + 4 * col] = row_bytes[col]\n", "_SR_SOURCE = tuple((i + 4 * (i % 4)) % 16 for i in range(16))\n\n\ndef _shift_rows(state: list[int]) -> None:\n    state[:] = [state[source] for source in _SR_SOURCE]\n"),
     T("mix-columns-in-place-xtime-form", "sharepoint2text/parsing/extractors/pdf/_pypdf_aes_fallback.py", "    for col in range(4):\n        i = 4 * col\n        a0, a1, a2, a3 = state[i : i + 4]\n        state[i + 0] = _MUL2[a0] ^ _MUL3[a1] ^ a2 ^ a3\n        state[i + 1] = a0 ^ _MUL2[a1] ^ _MUL3[a2] ^ a3\n        state[i + 2] = a0 ^ a1 ^ _MUL2[a2] ^ _MUL3[a3]\n        state[i + 3] = _MUL3[a0] ^ a1 ^ a2 ^ _MUL2[a3]\n", "    for i in (0, 4, 8, 12):\n        first = state[i]\n        t = state[i] ^ state[i + 1] ^ state[i + 2] ^ state[i + 3]\n        state[i] ^= t ^ _MUL2[state[i] ^ state[i + 1]]\n        state[i + 1] ^= t ^ _MUL2[state[i + 1] ^ state[i + 2]]\n        state[i + 2] ^= t ^ _MUL2[state[i + 2] ^ state[i + 3]]\n        state[i + 3] ^= t ^ _MUL2[state[i + 3] ^ first]\n"),
     T("unpad-lower-bound-zero-is-equivalent", F, "if padding < 1 or padding > block_size:", "if padding < 0 or padding > block_size:"),
     T("rename-local-in-xtime", F, "def _xtime(a: int) -> int:\n    a &= 0xFF\n    return ((a << 1) ^ 0x1B) & 0xFF if (a & 0x80) else (a << 1) & 0xFF", "def _xtime(value: int) -> int:\n    value &= 0xFF\n    return ((value << 1) ^ 0x1B) & 0xFF if (value & 0x80) else (value << 1) & 0xFF"),
